@@ -40,8 +40,8 @@ def run(ctx):
     ]
     if ctx.quick:
         b = dict(MaxFail=1, MaxCrash=1, MaxFaults=1, MaxRec=1, MaxEnv=1, MaxSync=1, MaxConc=2)
-        sb.model_check(ctx, "c17-pairx", sb.consts("c17", ["pairx"], **b), invs, timeout=900)
-        sb.model_check(ctx, "c17-multi", sb.consts("c17", ["multi", "pairn"], **dict(b, MaxEnv=2)), invs, timeout=900)
+        sb.model_check(ctx, "c17-pairs", sb.consts("c17", ["pairx", "pairn"], **b), invs, timeout=900)
+        sb.model_check(ctx, "c17-multi", sb.consts("c17", ["multi"], **dict(b, MaxEnv=2)), invs, timeout=900)
         nsim, nrandom = 60, 120
     else:
         b = dict(MaxFail=1, MaxCrash=1, MaxFaults=2, MaxRec=2, MaxEnv=2, MaxSync=1, MaxConc=2)
